@@ -508,6 +508,10 @@ func main() {
 		chunt(o) // constoracle.go / conststream.go: const vectors, views, every operand container kind
 		return
 	}
+	if o.Extra == "vhunt" || strings.HasPrefix(o.Extra, "vhunt:") {
+		vhunt(o) // viewalias.go: aliasing Set/ops through views, Reset under live views and handles
+		return
+	}
 	if o.Extra == "known" {
 		known(o)
 		return
